@@ -7,7 +7,7 @@ fields (int, str, float, list), a property, methods returning int / float / anot
 functions with positional-only / defaulted / keyword-only / ``*args`` / ``**kwargs`` parameters, over
 list / dict / tuple / set, functions that raise (a builtin exception that the docstring declares,
 one that it does not declare, an exception class of this module, one of another module), two classes
-with a method of the same name, and a public function whose name is also a parameter name (``label``).
+with a method of the same name, a nested class, and a public function whose name is also a parameter name (``label``).
 All state is per object: executing a test twice gives the same values.
 """
 import decimal
@@ -81,6 +81,16 @@ class Crate:
 
     def paint(self, color: Color) -> Color:
         return color
+
+
+class Outer:
+    class Inner:
+        def __init__(self) -> None:
+            self.depth = 2
+
+
+def inner() -> Outer.Inner:
+    return Outer.Inner()
 
 
 def make(size: int = 1) -> Box:
